@@ -175,7 +175,7 @@ impl<T, N: ArrayLength> IntrusiveArrayBuilder<T, N> {
             array.ok(),
             array.all_dead(),
         ensures
-            r.wf() && r.position == 0, /*OB:new.post.wf:C03,C04*/
+            r.wf() && r.position == 0, /*OB:new.post.wf:C03,C04,C07,C17*/
     {
         IntrusiveArrayBuilder {
             array, position: 0
@@ -247,7 +247,7 @@ impl<T, N: ArrayLength> IntrusiveArrayBuilder<T, N> {
             self.wf(),
             self.position == N::n(),
         ensures
-            r == self.array, /*OB:finish.post.hands-back:C03,C04*/
+            r == self.array, /*OB:finish.post.hands-back:C03,C04,C07,C17*/
     {
         assert(self.position == N::n()) /*OB:finish.debug-assertion-builder-is-full:C04*/;
         self.array
@@ -259,7 +259,7 @@ impl<T, N: ArrayLength> IntrusiveArrayBuilder<T, N> {
         requires
             old(self).wf(),
         ensures
-            final(self).array.ok() && final(self).array.all_dead(), /*OB:drop_impl.post.releases-prefix:C03,C04*/
+            final(self).array.ok() && final(self).array.all_dead(), /*OB:drop_impl.post.releases-prefix:C03,C04,C07,C17*/
     {
         {
             self.array.drop_range(0, self.position);
@@ -275,7 +275,7 @@ impl<T, N: ArrayLength> IntrusiveArrayBuilder<T, N> {
             array.ok(),
             array.all_live(),
         ensures
-            r.slots == array, /*OB:array_assume_init.post.same:C04,C07*/
+            r.slots == array, /*OB:array_assume_init.post.same:C04,C07,C17*/
     {
         assume_init_read(array)
     }
